@@ -103,3 +103,23 @@ def bookkeeping(ctx, rep, R, prefix, only=None):
             if not ok:
                 rep.finding(R, f'{prefix}/{fold.__name__[5:]}/{case}', cons[0].split(' ')[0], fold.__name__[5:], f'{case}: {detail}')
     return n
+
+
+def finish_folds(ctx, rep, R, prefix):
+    """Model.finish() of every logic folded end to end (sa.finishfold); shared by C08.R3 and C20.R4."""
+    from .. import finishfold
+    m = ctx.m
+    n = 0
+    seen = set()
+    for lg in ctx.lgs:
+        res, cons = finishfold.fold_finish(m, ctx.lgs, lg, deep=rep.tier == 'thorough')
+        rep.consult(*cons)
+        k = id(res)
+        first = k not in seen
+        seen.add(k)
+        for ok, case, detail in res:
+            n += 1
+            rep.instance(R, ok=ok, sample=dict(logic=lg.name, case=case) if first else None, nontrivial=(lg.name, case))
+            if not ok:
+                rep.finding(R, f'{prefix}/{lg.name}/finish/{case}', m.relfile(lg.modelcls.module), f'{lg.name}.Model.finish', f'{lg.name}: {case}: {detail}')
+    return n
